@@ -235,6 +235,9 @@ func Lookup(names ...string) *Node {
 	return n
 }
 
+// ModulePrefix: module name -> its own prefix.
+var ModulePrefix = map[string]string{ModIds: "vi", ModMain: "vm", ModExt: "ve"}
+
 // Identities known to the harness: name -> module.
 var Identities = map[string]string{"red": ModIds, "green": ModIds, "blue": ModMain, "purple": ModExt}
 
